@@ -77,6 +77,30 @@ def abstract_case(draw, spec, cp):
     return ops
 
 
+@st.composite
+def fault_case(draw, spec, cp):
+    """prefix ops + one designated fault operation + continuation ops"""
+    nev = len([e for e in spec['events'] if not e.get('kleene')])
+    ops = [dict(op='S', val=draw(valuation()), scripts={})]
+    kinds = cp.get('kinds', ['P'])
+    def one(allow_scripts):
+        k = draw(st.sampled_from(kinds))
+        if k == 'P':
+            return dict(op='P', pick=draw(pick()), val=draw(valuation()), scripts=draw(scripts(nev, allow_scripts)))
+        if k == 'Q':
+            return dict(op='Q', pick=draw(pick()))
+        return dict(op='X', mode=draw(st.sampled_from(['a', 's'])), val=draw(valuation()), scripts={})
+    for _ in range(draw(st.integers(0, cp.get('max_prefix', 8)))):
+        ops.append(one(cp.get('scripts')))
+    f = dict(op='P', pick=draw(pick()), val=draw(valuation()), scripts=draw(scripts(nev, cp.get('scripts'))), fault=True)
+    if 'X' in kinds and draw(st.integers(0, 5)) == 0:
+        f = dict(op='X', mode=draw(st.sampled_from(['a', 's'])), val=draw(valuation()), scripts={}, fault=True)
+    ops.append(f)
+    for _ in range(draw(st.integers(1, cp.get('max_cont', 5)))):
+        ops.append(one(cp.get('cont_scripts')))
+    return ops
+
+
 class Exec:
     """lock-step execution of an abstract case: resolves picks against the SUT's observed configuration."""
 
@@ -192,30 +216,66 @@ def run_job(job):
         ex = Exec(spec, static, state['sut'], auto_probe=job['cp'].get('auto_probe', False))
         try:
             concrete, per_op = ex.run(acase)
-        except SUT.SutCrash as e:
-            concrete = getattr(e, 'concrete', None)
-            v = Violation('SUT crashed: rc=%s %s' % (e.rc, e.err[-600:]), sig='crash')
+        except (SUT.SutCrash, SUT.SutHang) as e:
+            v = Violation('SUT crashed: rc=%s %s' % (e.rc, e.err[-600:]), sig='hang' if e.rc == 'hang' else 'crash')
             state['last_fail'] = dict(case=acase_to_json(acase), msg=v.msg, sig=v.sig, abstract=True)
             raise v
-        res['evaluations'] += 1
-        ctx = oracles.Ctx(spec, static, job['cfg'], concrete, per_op, job)
-        try:
-            out = oracle(ctx)
-        except Violation as v:
-            if v.sig is not None and v.sig in known:
-                res['classes']['excluded_known:' + v.sig] = res['classes'].get('excluded_known:' + v.sig, 0) + 1
-                return
-            state['last_fail'] = dict(case=concrete, msg=v.msg, sig=v.sig, detail=v.detail)
-            raise
-        for k in out.get('nontrivial', ()):
-            res['nontrivial'].add(hash_key(k))
-        for k, n in out.get('classes', {}).items():
-            res['classes'][k] = res['classes'].get(k, 0) + n
-        if len(res['samples']) < 3 and out.get('nontrivial'):
-            res['samples'].append(cases.to_line(concrete))
+        variants = [(concrete, per_op, None)]
+        if job.get('mode') == 'fault_enum':
+            fi = [i for i, c in enumerate(concrete) if c.get('fault')]
+            if fi:
+                fi = fi[0]
+                K = 0
+                if fi < len(per_op):
+                    for t in per_op[fi]:
+                        pp_ = oracles.parse(t)
+                        if pp_ and pp_[0] in ('g', 'a', 'en', 'ex', 'xc'):
+                            K += 1
+                variants = []
+                for k in range(min(K, 40)):
+                    ck = [dict(c) for c in concrete]
+                    sc = dict(ck[fi].get('scripts') or {})
+                    sc[k] = list(sc.get(k, [])) + [['t']]
+                    ck[fi]['scripts'] = sc
+                    try:
+                        pk = ex.replay(ck)
+                    except (SUT.SutCrash, SUT.SutHang) as e:
+                        v = Violation('SUT crashed: rc=%s %s' % (e.rc, e.err[-600:]), sig='hang' if e.rc == 'hang' else 'crash')
+                        state['last_fail'] = dict(case=ck, msg=v.msg, sig=v.sig)
+                        state['sut'] = SUT.Sut(job['bin'], env=job.get('env'))
+                        raise v
+                    variants.append((ck, pk, dict(fault_index=fi, k=k, baseline=per_op)))
+                if not variants:
+                    res['classes']['fault_op_without_callbacks'] = res['classes'].get('fault_op_without_callbacks', 0) + 1
+        for (cc, pp, extra) in variants:
+            res['evaluations'] += 1
+            ctx = oracles.Ctx(spec, static, job['cfg'], cc, pp, job)
+            ctx.extra = extra
+            try:
+                out = oracle(ctx)
+            except Violation as v:
+                if v.sig is not None and v.sig in known:
+                    res['classes']['excluded_known:' + v.sig] = res['classes'].get('excluded_known:' + v.sig, 0) + 1
+                    continue
+                state['last_fail'] = dict(case=cc, msg=v.msg, sig=v.sig, detail=v.detail)
+                raise
+            for k in out.get('nontrivial', ()):
+                res['nontrivial'].add(hash_key(k))
+            for k, n in out.get('classes', {}).items():
+                res['classes'][k] = res['classes'].get(k, 0) + n
+            if len(res['samples']) < 3 and out.get('nontrivial'):
+                res['samples'].append(cases.to_line(cc))
+            if job.get('keep_cases') and out.get('nontrivial'):
+                kept = state.setdefault('kept', [])
+                prio = bool(out.get('classes', {}).get('fault_in_completion_transition'))
+                if prio and sum(1 for x in kept if x[0]) < job['keep_cases']:
+                    kept.insert(0, (True, cc))
+                elif len(kept) < 2 * job['keep_cases']:
+                    kept.append((False, cc))
 
     sd = int(hashlib.sha256(('%s/%s/%s/%s' % (job['seed'], spec['id'], job['cfg'], job['prop'])).encode()).hexdigest()[:8], 16)
-    test = given(abstract_case(spec, job['cp']))(body)
+    strat = fault_case(spec, job['cp']) if job.get('mode') == 'fault_enum' else abstract_case(spec, job['cp'])
+    test = given(strat)(body)
     test = seed(sd)(test)
     test = settings(max_examples=job['max_examples'], database=None, deadline=None, derandomize=False,
                     suppress_health_check=list(HealthCheck), phases=[Phase.generate, Phase.shrink],
@@ -231,6 +291,7 @@ def run_job(job):
     except Exception:
         pass
     res['nontrivial'] = sorted(res['nontrivial'])
+    res['kept'] = [c for _, c in state.get('kept', [])][:2 * job.get('keep_cases', 0)]
     res['wall_s'] = time.time() - t0
     return res
 
@@ -241,3 +302,78 @@ def hash_key(k):
 
 def acase_to_json(acase):
     return json.loads(json.dumps(acase, default=list))
+
+
+def run_job_multi(job):
+    """differential job: the same concrete case is driven into several configurations of one spec.
+    job: dict(spec, bins={cfg: path}, prop, oracle, cp, max_examples, seed, known_sigs)"""
+    from . import oracles
+    t0 = time.time()
+    spec = job['spec']
+    static = ST.Static(spec)
+    oracle = getattr(oracles, job['oracle'])
+    cfgs = sorted(job['bins'])
+    res = dict(spec=spec['id'], cfg=cfgs[0], cfgs=cfgs, evaluations=0, nontrivial=set(), classes={}, samples=[], failure=None)
+    suts = {}
+    try:
+        for c in cfgs:
+            suts[c] = SUT.Sut(job['bins'][c], env=job.get('env'))
+    except Exception as e:
+        res['error'] = 'cannot start SUT: %s' % e
+        return res
+    state = dict(last_fail=None)
+    known = job.get('known_sigs', ())
+
+    def body(acase):
+        for c in cfgs:
+            if suts[c].dead:
+                suts[c] = SUT.Sut(job['bins'][c], env=job.get('env'))
+        base = cfgs[0]
+        try:
+            concrete, per0 = Exec(spec, static, suts[base], auto_probe=job['cp'].get('auto_probe', False)).run(acase)
+            runs = {base: per0}
+            for c in cfgs[1:]:
+                runs[c] = Exec(spec, static, suts[c], auto_probe=job['cp'].get('auto_probe', False)).replay(concrete)
+        except (SUT.SutCrash, SUT.SutHang) as e:
+            v = Violation('SUT crashed: rc=%s %s' % (e.rc, e.err[-600:]), sig='hang' if e.rc == 'hang' else 'crash')
+            state['last_fail'] = dict(case=acase_to_json(acase), msg=v.msg, sig=v.sig, abstract=True)
+            raise v
+        res['evaluations'] += 1
+        ctx = oracles.Ctx(spec, static, base, concrete, per0, job)
+        ctx.runs = runs
+        try:
+            out = oracle(ctx)
+        except Violation as v:
+            if v.sig is not None and v.sig in known:
+                res['classes']['excluded_known:' + v.sig] = res['classes'].get('excluded_known:' + v.sig, 0) + 1
+                return
+            state['last_fail'] = dict(case=concrete, msg=v.msg, sig=v.sig, detail=v.detail)
+            raise
+        for k in out.get('nontrivial', ()):
+            res['nontrivial'].add(hash_key(k))
+        for k, n in out.get('classes', {}).items():
+            res['classes'][k] = res['classes'].get(k, 0) + n
+        if len(res['samples']) < 3 and out.get('nontrivial'):
+            res['samples'].append(cases.to_line(concrete))
+
+    sd = int(hashlib.sha256(('%s/%s/multi/%s' % (job['seed'], spec['id'], job['prop'])).encode()).hexdigest()[:8], 16)
+    test = given(abstract_case(spec, job['cp']))(body)
+    test = seed(sd)(test)
+    test = settings(max_examples=job['max_examples'], database=None, deadline=None, derandomize=False,
+                    suppress_health_check=list(HealthCheck), phases=[Phase.generate, Phase.shrink],
+                    report_multiple_bugs=False, print_blob=False)(test)
+    try:
+        test()
+    except Violation as v:
+        res['failure'] = state['last_fail']
+    except Exception as e:
+        res['error'] = 'harness error: %s\n%s' % (e, traceback.format_exc()[-3000:])
+    for c in cfgs:
+        try:
+            suts[c].close()
+        except Exception:
+            pass
+    res['nontrivial'] = sorted(res['nontrivial'])
+    res['kept'] = []
+    res['wall_s'] = time.time() - t0
+    return res
